@@ -18,6 +18,9 @@ func init() {
 	props["C02"] = sim.PropSpec{Gen: genC02, Exec: execC02}
 }
 
+// forceOrder lets other generators (C08) reuse genC02 with a fixed version order.
+var forceOrder = -1
+
 var versionPool = []uint64{1, 2, 3, 4, 5, 6, math.MaxUint64}
 
 func genC02(r *sim.Rand, tier string) *sim.Case {
@@ -29,6 +32,9 @@ func genC02(r *sim.Rand, tier string) *sim.Case {
 	// order: 0 = versions written in increasing order per key (never repeated),
 	// 1 = increasing with repeats, 2 = arbitrary order
 	order := r.Pick(0, 0, 1, 2)
+	if forceOrder >= 0 {
+		order = forceOrder
+	}
 	c.Cfg["order"] = int64(order)
 	n := 10 + r.Intn(30)
 	if tier == "thorough" {
